@@ -38,6 +38,10 @@ def jobs(tier):
             for shape in ((1, 1), (2, 1, 2), (1, 1, 1, 1)):
                 out.append({'name': f'{key}-{op}-{H.shape_str(shape)}-alias', 'model': key, 'op': op, 'shape': list(shape), 'alias': True,
                             'budget': 300 if tier == 'quick' else 1800, 'cost': len(shape) ** 2})
+            # two teams made of the same players (equal ids) at different values: a stored snapshot next to the current team
+            for shape in ((2, 1, 2), (1, 1, 1, 1)):
+                out.append({'name': f'{key}-{op}-{H.shape_str(shape)}-snapshot', 'model': key, 'op': op, 'shape': list(shape), 'alias': 'snapshot',
+                            'budget': 300 if tier == 'quick' else 1800, 'cost': len(shape) ** 2})
     return out
 
 
@@ -52,7 +56,14 @@ def _ref(op, P, prior, beta, inv_cdf):
 
 def _teams(m, shape, mkf, alias):
     teams = PR.build_teams(m, shape, mkf)
-    if alias:
+    if alias == 'snapshot':
+        # the last team is a stored snapshot of the first one: deep copies keep the player ids, the values have moved on
+        import copy
+        snap = copy.deepcopy(teams[0])
+        for p, q in zip(snap, teams[-1]):
+            p.mu, p.sigma = q.mu, q.sigma
+        teams[-1] = snap
+    elif alias:
         teams[-1] = teams[0]
         if len(shape) == 4:
             teams[2] = [teams[1][0]]  # the same rating object in two different team lists
@@ -121,7 +132,7 @@ def run_job(spec, ctx):
             neg = z3.Or(*diffs)
             r, m = eng.check(neg, timeout=60000)
             if r == 'sat':
-                cands = [{'inputs': inp, 'model': key, 'op': op, 'shape': list(shape), 'alias': bool(spec.get('alias'))}
+                cands = [{'inputs': inp, 'model': key, 'op': op, 'shape': list(shape), 'alias': spec.get('alias') or False}
                          for inp in H.witness_models(eng, neg, names, [z3.Real('beta') == z3.RealVal('25/6')])]
                 H.mark_last(cands)
                 ctx.ob(f'{op} == closed form', 'sat' if cands else 'unknown', cands, sample=sample)
@@ -163,7 +174,7 @@ def replay(cand):
     inp = cand['inputs']
     m, teams = PR.float_teams(key, shape, inp)
     if cand.get('alias'):
-        teams = _teams(m, shape, H.float_maker(inp), True)
+        teams = _teams(m, shape, H.float_maker(inp), cand.get('alias'))
     prior = [[(p.mu, p.sigma) for p in t] for t in teams]
     code = PR.call(m, op, teams)
     if op == 'predict_rank':
@@ -172,5 +183,5 @@ def replay(cand):
     cl = code if isinstance(code, list) else [code]
     rl = ref if isinstance(ref, list) else [ref]
     worst = max([abs(float(a) - float(b)) for a, b in zip(cl, rl)] + ([1.0] if len(cl) != len(rl) else []))
-    return {'violated': bool(worst > 1e-9), 'key': f'{key}:{op}:{H.shape_str(shape)}' + (':alias' if cand.get('alias') else ''),
-            'detail': f'C12 {H.MODEL_NAMES[key]}.{op} shape={shape}{" (first team list re-entered as last team)" if cand.get("alias") else ""} inputs={inp}: returns {cl}, closed form {[float(x) for x in rl]} (max abs diff {worst:.3g})'}
+    return {'violated': bool(worst > 1e-9), 'key': f'{key}:{op}:{H.shape_str(shape)}' + (f':{cand.get("alias") if cand.get("alias") != True else "alias"}' if cand.get('alias') else ''),
+            'detail': f'C12 {H.MODEL_NAMES[key]}.{op} shape={shape}{" (last team is a same-id snapshot of the first)" if cand.get("alias") == "snapshot" else " (first team list re-entered as last team)" if cand.get("alias") else ""} inputs={inp}: returns {cl}, closed form {[float(x) for x in rl]} (max abs diff {worst:.3g})'}
